@@ -9,10 +9,24 @@ package keyed
 //	site 2: retry timer callback, before k.mtx is taken (obj: the key)
 //	site 3: delayed-removal timer callback, before k.mtx is taken (obj: the key)
 //	site 4: KeyedRef.Release after the flag swap, before rc.mtx is taken (obj: the key)
+//	site 5: Keyed.RemoveKey before k.mtx is taken (obj: the key). KeyedRef.Release and
+//	        KeyedRefCount.RemoveKey reach it while holding rc.mtx: a controller must not park a
+//	        goroutine there unless VerifRcMtxFree reports true.
 var VerifHook func(site int, obj any)
 
 func verifPoint(site int, obj any) {
 	if h := VerifHook; h != nil {
 		h(site, obj)
 	}
+}
+
+// VerifRcMtxFree reports whether rc.mtx is free at the moment of the call (TryLock/Unlock probe).
+// Called from a schedule point on the goroutine that may hold rc.mtx, it tells the controller
+// whether parking there would park a goroutine that holds the mutex. Verification builds only.
+func (k *KeyedRefCount[K, V]) VerifRcMtxFree() bool {
+	if !k.mtx.TryLock() {
+		return false
+	}
+	k.mtx.Unlock()
+	return true
 }
